@@ -395,7 +395,7 @@ def subqap(nm):
             continuefn(oldctx)
             retcopy = for_each_in(runtime.LinComb, copyandaddrev, ret)
 
-            vc_glue(oldctx, newctx, argret)
+            if argret: vc_glue(oldctx, newctx, argret) # no secret argument or result: nothing to tie (an empty block breaks qapsplit)
 
             return retcopy
 
